@@ -90,6 +90,11 @@ func genSuffixScript(r *rng, id string, cnt counters, emit func(line, out string
 			if mx < 0 {
 				mx = 0
 			}
+			if r.chance(6) {
+				// the property quantifies over every 0 <= minLen <= maxLen: limits beyond the int32 range
+				mx = r.pick(1<<31-1, 1<<31, 1<<32, 1<<40)
+				mn = r.pick(mn, mn, 1<<31-1, 1<<31, mx)
+			}
 			if len(t) > 60 {
 				t = t[:60]
 			}
@@ -105,6 +110,10 @@ func genSuffixScript(r *rng, id string, cnt counters, emit func(line, out string
 			mx := r.pick(mn, mn+1, mn+2, 9, mn-1)
 			if mx < 0 {
 				mx = 0
+			}
+			if r.chance(6) {
+				mx = r.pick(1<<31-1, 1<<31, 1<<32, 1<<40)
+				mn = r.pick(mn, mn, 1<<31-1, 1<<31, mx)
 			}
 			do(fmt.Sprintf("seg %s %d %d", joinInts(l), mn, mx))
 		}
